@@ -300,7 +300,7 @@ Proof.
     + destruct (kind t); [|inv H; apply okp_same; reflexivity|inv H; apply okp_same; reflexivity].
       apply (on_timeout_okp p M) in H. eapply okp_ext; [|exact H]. reflexivity.
     + unfold run_timer in H. destruct (kind t) as [r tok|r m to c|pe md] eqn:Ek.
-      * apply (on_timeout_okp p M) in H. eapply okp_ext; [|exact H]. reflexivity.
+      * inv H. apply okp_same; reflexivity.
       * apply next_timer_r_in in En. destruct HB as (_ & H2 & _). destruct (H2 _ _ _ _ _ En Ek) as [Hc _].
         apply (retransmit_acks p M) in H; [|exact Hc]. destruct H as [Hp Ha]. apply okp_same; [rewrite Hp; reflexivity|exact Ha].
       * inv H. apply okp_same; reflexivity.
